@@ -64,17 +64,24 @@ theorem print_derives (fuel : Nat) (e : E) (p : Prec) (t : E) (hp : p ≤ opCall
   have hp' : p ≤ 17 := by
     have : opCall = 17 := by decide
     rw [this] at hp; exact hp
-  have inv := Verif.Proofs.JsPrintGwf.printT_gwf fuel e p t hp' hw hf h
-  exact ⟨inv.g, inv.lv, rfl⟩
+  have inv := Verif.Proofs.JsPrintGwf.printT_gwf fuel e p t hp' hw h
+  exact ⟨inv.g, inv.lv hf, rfl⟩
+
+/-- the same for the parser's trees: `e` is any derivation tree of the (strict) ECMA-262 expression grammar — what
+    `js.Parse` produces — printed in a context whose level it has -/
+theorem print_derives_parsed (fuel : Nat) (e : E) (p : Prec) (t : E) (hp : p ≤ opCall)
+    (hg : gwf e = true) (hl : p ≤ lvl e) (h : printT fuel e p = some t) : DerivesA p (yield t) t :=
+  print_derives fuel e p t hp (Verif.Proofs.JsPrintGwf.gwf_wfGo e hg)
+    (Verif.Proofs.JsPrintGwf.fitsIn_of_lvl p e hl) h
 
 /-- assignment targets stay assignment targets -/
 theorem print_target (fuel : Nat) (e : E) (p : Prec) (t : E) (hp : p ≤ opCall)
-    (hw : Verif.Proofs.JsPrintGwf.wfGo e = true) (hf : Verif.Proofs.JsPrintGwf.FitsIn p e = true)
+    (hw : Verif.Proofs.JsPrintGwf.wfGo e = true)
     (h : printT fuel e p = some t) (ha : assignable e = true) : isTarget t = true := by
   have hp' : p ≤ 17 := by
     have : opCall = 17 := by decide
     rw [this] at hp; exact hp
-  exact (Verif.Proofs.JsPrintGwf.printT_gwf fuel e p t hp' hw hf h).tg ha
+  exact (Verif.Proofs.JsPrintGwf.printT_gwf fuel e p t hp' hw h).tg ha
 
 /-- reading `&&` as associative does not change the meaning: `a&&(b&&c)` and `(a&&b)&&c` behave alike -/
 theorem assoc_land (H : Host) (a b c : E) :
@@ -94,6 +101,8 @@ theorem assoc_nullish (H : Host) (a b c : E) :
   simp only [Verif.Proofs.JsSemLemmas.eval_nullish, Verif.Proofs.JsSemLemmas.bindM_assoc]
   apply Verif.Proofs.JsSemLemmas.bindM_congr; intro v
   by_cases hv : isNullish v = true <;> simp [hv]
+
+example : Verif.Proofs.JsPrintGwf.wfGo (.bin .bor (.bin .bor (.var "a") (.var "b")) (.var "c")) = true := by rfl
 
 example : Verif.Proofs.JsPrintGwf.wfGo (.bin .mul (.group (.bin .add (.var "a") (.var "b"))) (.var "c")) = true ∧
     printT 9 (.bin .mul (.group (.bin .add (.var "a") (.var "b"))) (.var "c")) 1
